@@ -181,6 +181,8 @@ def check_case(case: Dict[str, Any], col: Collector, tdir: str, light: bool = Fa
     base = identity_record(cfg)
     rep = {k: case.get(k) for k in ("nodes", "run_space", "rewrites")}
     labs = ["sweep" if any(n.get("sweep") for n in case["nodes"]) else "no_sweep", "run_space" if case.get("run_space") else "no_run_space"]
+    if case.get("twin"):
+        labs.append("retyped_twin")
     two_ctx = any(sum(1 for v in n["sweep"]["vars"].values() if v["kind"] == "ctx") >= 2 for n in case["nodes"] if n.get("sweep"))
     if two_ctx:
         labs.append("two_from_context_vars")
@@ -243,6 +245,44 @@ def check_case(case: Dict[str, Any], col: Collector, tdir: str, light: bool = Fa
     return base
 
 
+def _retype(obj: Any) -> Any:
+    """Integral floats -> ints: a DIFFERENT configuration (1 != 1.0 type-strictly) that is ==-equal value by value."""
+    if isinstance(obj, dict):
+        return {k: _retype(v) for k, v in obj.items()}
+    if isinstance(obj, list):
+        return [_retype(v) for v in obj]
+    if isinstance(obj, float) and obj == int(obj) and abs(obj) < 1e6:
+        return int(obj)
+    return obj
+
+
+def _with_retyped_twins(cases: List[Dict[str, Any]]) -> List[Dict[str, Any]]:
+    """History dimension: a numerically equal but differently typed twin is observed next to some configurations.
+    Neither identity may depend on which of the two was seen first (the process variants use opposite orders)."""
+    out: List[Dict[str, Any]] = []
+    for i, c in enumerate(cases):
+        out.append(c)
+        if i % 3 == 0:
+            twin = copy.deepcopy(c)
+            changed = False
+            for n in twin["nodes"]:
+                sw = n.get("sweep")
+                if sw:
+                    for spec in sw["vars"].values():
+                        if spec["kind"] == "values":
+                            new = _retype(spec["values"])
+                            changed = changed or repr(new) != repr(spec["values"])
+                            spec["values"] = new
+                if n.get("params") and n["p"] == "VNestedParamOp":
+                    new = _retype(n["params"])
+                    changed = changed or repr(new) != repr(n["params"])
+                    n["params"] = new
+            if changed:
+                twin["twin"] = True
+                out.append(twin)
+    return out
+
+
 def plan(tier: str, seed: int, scale: float = 1.0) -> List[Dict[str, Any]]:
     groups, n = (8, 90) if tier == "quick" else (40, 160)
     specs = []
@@ -271,6 +311,7 @@ def run_shard(spec: Dict[str, Any]) -> Dict[str, Any]:
         cases.append(c)
 
     collect()
+    cases = _with_retyped_twins(cases)
     order = list(reversed(cases)) if v["reverse"] else list(cases)
     col = Collector()
     tdir = tempfile.mkdtemp(prefix="c04-", dir=spec.get("workdir", "."))
@@ -346,8 +387,8 @@ def valid(case: Any) -> bool:
 
 
 def label_requirements(tier: str) -> Dict[str, Any]:
-    req: Dict[str, Any] = {"sweep": 0.2, "run_space": 0.3, "two_from_context_vars": 0.05, "pipeline_object_reused": 0.3,
-                           "history_reobserved": 40, "expression_commuted": 0.03}
+    req: Dict[str, Any] = {"sweep": 0.2, "run_space": 0.2, "two_from_context_vars": 0.05, "pipeline_object_reused": 0.3,
+                           "history_reobserved": 40, "expression_commuted": 0.03, "retyped_twin": 0.03}
     for k in yamlrw.REWRITE_KINDS:
         req["rewrite:" + k] = 0.08
     return req
